@@ -1,6 +1,6 @@
 (* C18 driver: replays the Go trace on the extracted model of handleCommitMessage /
    verifyCommitMessageJustification and evaluates the property predicate (Model.prop_holds, the
-   predicate of C18_prop_partial) on the implementation's observables. *)
+   predicate of C18_prop) on the implementation's observables. *)
 open Model
 open Vutil
 
@@ -102,14 +102,17 @@ let check inp obs =
       let prop = (match fin with
         | Some l -> prop_holds chain auths setid m has (ores = "ok") l
         | None -> false) in
-      let guard = threshold_guard chain auths m in
+      let guard = at_threshold chain auths m in
+      (* the class of the former finding (exactly floor(2n/3) backers accepted): repaired by
+         fixes/C18-3-commit-threshold-strict.patch; the slug is still attached so that a tree
+         without that patch is reported under its name *)
       let finding = if (not prop) && guard && onfin = "1" then "commit-threshold-not-strict" else "-" in
       let eq = (model = observed) && sig_sane in
       let reached = (match r with HAccepted | HRejected EMinVotes -> true | _ -> false) in
       { prop_ok = prop; model_eq = eq; nontrivial = reached && ents <> [];
         finding;
         tags = String.concat "," (common_tags @ ["res-" ^ hres_str r ^ (if r = HAlreadyFinalised then "-noop" else "")]
-                                  @ (if guard && r = HAccepted then ["accepted-at-threshold"] else []));
+                                  @ (if guard then ["exactly-threshold-backers"] else []));
         detail = (if prop && eq then "" else
                     Printf.sprintf "model=[%s] prefix-model=[%s] backers=%s threshold=%s n=%d%s%s" model prefix
                       (hex_of_n cnt) (hex_of_n thr) n
@@ -119,11 +122,12 @@ let check inp obs =
       let r = verify_commit chain auths setid t hf m in
       let model = res_str r in
       let prefix = res_str (verify_commit_prefix chain auths setid t hf m) in
-      (* C18_verify_iff: success needs at least thr distinct backers *)
-      let prop = (ores <> "ok") || (N.compare t cnt <> Gt) in
+      (* C18_verify_iff: success needs more than thr distinct backers *)
+      let prop = (ores <> "ok") || (N.compare t cnt = Lt) in
       let eq = (model = ores) && sig_sane in
       let reached = (match r with ROk _ | RErr EMinVotes -> true | _ -> false) in
-      { prop_ok = prop; model_eq = eq; nontrivial = reached && ents <> []; finding = "-";
+      { prop_ok = prop; model_eq = eq; nontrivial = reached && ents <> [];
+        finding = (if (not prop) && N.compare t cnt = Eq then "commit-threshold-not-strict" else "-");
         tags = String.concat "," (common_tags @ ["res-" ^ model]);
         detail = (if prop && eq then "" else
                     Printf.sprintf "model=[%s] prefix-model=[%s] backers=%s threshold=%s n=%d%s" model prefix
